@@ -22,7 +22,7 @@ func init() {
 func init() {
 	addStages("C20", "exploration", []string{
 		"E2: real NodeHosts on strict in-memory file systems; the exported directory is copied file by file to the hosts that import it",
-	}, Stage{Engine: "clusterrun", Mode: "importer", BatchesQ: 6, BatchesT: 16, Par: 6, TimeoutQ: 900, TimeoutT: 3600})
+	}, Stage{Engine: "clusterrun", Mode: "importer", BatchesQ: 12, BatchesT: 16, Par: 12, TimeoutQ: 900, TimeoutT: 3600})
 }
 
 func init() {
